@@ -460,6 +460,15 @@ class Numeric(PointWise):
             if isinstance(dp, pg.geno.Float)]
 
 
+def _clip(value: float, decision_point: pg.geno.Float) -> float:
+  """Keeps an average within the range of its decision point.
+
+  The mean of values within [min_value, max_value] may fall outside of the range
+  by a rounding error (e.g. (0.1 + 0.1 + 0.1) / 3 > 0.1).
+  """
+  return min(max(value, decision_point.min_value), decision_point.max_value)
+
+
 @pg.members([], init_arg_list=['where'])
 class Average(Numeric):
   """Average crossover.
@@ -476,9 +485,8 @@ class Average(Numeric):
       self,
       decision_point: pg.geno.DecisionPoint,
       parent_decisions: List[Optional[float]]) -> float:
-    del decision_point
     parent_decisions = [d for d in parent_decisions if d is not None]
-    return sum(parent_decisions) / len(parent_decisions)
+    return _clip(sum(parent_decisions) / len(parent_decisions), decision_point)
 
 
 @pg.members([
@@ -517,14 +525,13 @@ class WeightedAverage(Numeric):
       self,
       decision_point: pg.geno.Float,
       parent_decisions: List[Optional[float]]) -> float:
-    del decision_point
     decision = 0.0
     denominator = 0.0
     for d, w in zip(parent_decisions, self._parent_weights):
       if d is not None:
         decision += w * d
         denominator += w
-    return decision / denominator
+    return _clip(decision / denominator, decision_point)
 
 
 #
